@@ -406,7 +406,7 @@ pub fn run(ctx: &Ctx) -> (Spec, Report) {
             let langs: Vec<(LangId, LangCfg)> = [LangId::Ts, LangId::Kotlin, LangId::Swift, LangId::Go, LangId::Python]
                 .iter()
                 .filter(|l| !(has_const && !l.supports_const()))
-                .map(|l| (*l, LangCfg::basic(*l)))
+                .map(|l| (*l, LangCfg::shaped(*l, rng)))
                 .collect();
             Gen { model: m, files: vec![SrcFile { path: "src/lib.rs".into(), source: src }], multi: false, langs }
         },
